@@ -26,6 +26,8 @@ def gen_seq(rng):
             kw["marker_expression"] = "slow and"          # unparsable: graph phase fails
         if rng.random() < 0.1:
             kw["database_url"] = "nosuchdialect://x"      # configuration phase fails
+        elif rng.random() < 0.25:
+            kw["memdb"] = True                            # an in-memory database: every build starts without records
         seq.append({"kind": kind, "kwargs": kw})
     return seq
 
@@ -104,6 +106,10 @@ def run(out, tier, seed, proof):
                 probs.append("warning filters changed")
             if st["pdb"] != b0["pdb"]:
                 probs.append("pdb.set_trace was replaced")
+            if st.get("warn_hooks") != b0.get("warn_hooks"):
+                probs.append("the list of warning filters or the functions showing a warning were replaced")
+            if st.get("breakpointhook") != b0.get("breakpointhook"):
+                probs.append("sys.breakpointhook was replaced")
             if st["registry"] != b0["registry"]:
                 probs.append("registry of pending task functions is not empty")
             grown.append(st["nfds"] - b0["nfds"])
